@@ -52,6 +52,7 @@ type World struct {
 	Net       *simnet.Net
 	Rng       *rand.Rand // scenario-time choices (deterministic, drawn only by threads under the token or before Run)
 	Dir       string
+	Sandbox   string
 	ConfigDir string
 	FileRoot  string
 	Cfg       hotline.Config
@@ -164,8 +165,15 @@ func (w *World) init(over map[string]int) {
 	dir := filepath.Join(RunRoot(), "w")
 	_ = os.RemoveAll(dir)
 	w.Dir = dir
-	w.ConfigDir = filepath.Join(dir, "sandbox", "config")
-	w.FileRoot = filepath.Join(dir, "sandbox", "root")
+	// cfg nest=k puts the sandbox k directory levels below w.Dir, so that paths climbing out of it with
+	// up to k ".." components still land inside w.Dir, where the oracle of C07 sees them
+	sb := dir
+	for i := 0; i < w.cfg("nest"); i++ {
+		sb = filepath.Join(sb, fmt.Sprintf("n%d", i))
+	}
+	w.Sandbox = filepath.Join(sb, "sandbox")
+	w.ConfigDir = filepath.Join(w.Sandbox, "config")
+	w.FileRoot = filepath.Join(w.Sandbox, "root")
 	w.Rng = rand.New(rand.NewSource(c.Seed ^ 0x5eed))
 	w.Srv, w.AllSrv, w.Clients, w.Recorder = nil, nil, nil, nil
 	must(os.MkdirAll(filepath.Join(w.ConfigDir, "Users"), 0755))
